@@ -107,8 +107,12 @@ def generic_shrink(case):
 
 def run_with(case, monitors, extra=None):
     """Execute the scenario with the given monitors; package the result for the harness."""
+    h0 = dict(W.HOOK_FIRED)
     w, info = scenario.execute(case, monitors)
     stats = dict(w.stats)
+    for k, v in W.HOOK_FIRED.items():  # how often each observation seam fired in this case (a seam stuck at zero would mean blind monitors)
+        if v - h0.get(k, 0):
+            stats["seam." + k] = v - h0.get(k, 0)
     stats["scenario." + info["kind"]] = 1
     stats["iterations"] = sum(info["iters"])
     if info["completed"]:
